@@ -282,7 +282,14 @@ func (b bin) Iter(yield func(string, Value) bool) {
 }
 
 func (b bin) Size() int {
-	return 3
+	size := 1
+	if b.IsMin {
+		size++
+	}
+	if b.IsMax {
+		size++
+	}
+	return size
 }
 
 func (b bin) String() string {
